@@ -1165,6 +1165,7 @@ def corpus():
     cs.append(ret(_resp(200, _resp(201, _resp(202, hello, cookies=[('k', 'x')]), headers=[('X-A', 'v')]),
                         cookies=[('sid', 'v1')])))
     cs.append(ret(_resp(200, hello, headers=[('X-A', '\ud800')])))                 # headerlist raises -> catch-all
+    cs.append(ret(_resp(200, hello, headers=[('X-A', '\ud800')]), method='HEAD'))  # F31: no body for HEAD there either
     cs.append(ret(_resp(204, hello, headers=[('Content-Type', 'text/plain'), ('X-A', 'v')])))
     cs.append(ret(_resp(304, hello, headers=[('Content-Length', '5'), ('Allow', 'GET'), ('X-A', 'v')])))
     cs.append(ret(_resp(200, hello, headers=[('Content-Length', '1000')])))
